@@ -178,14 +178,18 @@ type vPlan struct {
 
 func vSchedRunPlans(c *vCtx, prop string, scns []vScn, quick, thorough []vPlan) {
 	plans := quick
-	budget := 5 * time.Minute
+	budget := 15 * time.Minute
 	if c.thorough() {
 		plans = thorough
 		budget = 40 * time.Minute
 	}
-	per := budget / time.Duration(len(scns)*len(plans))
+	// the budget is shared: what one scenario does not use rolls over to the next ones
+	end := time.Now().Add(budget)
+	left := len(scns) * len(plans)
 	for _, scn := range scns {
 		for _, pl := range plans {
+			per := time.Until(end) / time.Duration(left)
+			left--
 			st := vExplore(c, prop, scn, pl.model, pl.bound, time.Now().Add(per))
 			vMergeStats(c, scn.name, pl.model, pl.bound, st)
 		}
